@@ -119,6 +119,7 @@ var c12Alphabet = []uciCmd{
 	{"ucinewgame", "newgame", refchess.MustFEN("rnbqkbnr/pppppppp/8/8/8/8/PPPPPPPP/RNBQKBNR w KQkq - 0 1").FEN()},
 	{"position fen " + lcFens["A"], "position", lcFens["A"]},
 	{"position fen " + lcFens["B"], "position", lcFens["B"]},
+	{"position fen " + lcFens["D"], "position", lcFens["D"]},
 	{"position fen " + lcFens["A"] + " moves a1b1 e2d2", "position", refchess.MustFEN(lcFens["A"]).Make(mustUci(lcFens["A"], "a1b1")).Make(refchess.Move{From: 12, To: 11}).FEN()},
 	{"go depth 1", "go-timed", ""},
 	{"go movetime 25 depth 1", "go-timed", ""},
@@ -760,6 +761,8 @@ func c12RealSearches(run *vl.Run) {
 		{"position fen " + lcFens["C"], "go ponder wtime 200 btime 200", "<idle>", "ponderhit", "<await>"},
 		{"position fen " + lcFens["C"], "go ponder wtime 200 btime 200", "<idle>", "stop", "<await>", "go movetime 25", "<await>"},
 		{"position startpos", "go wtime 150 btime 150 movestogo 10", "<await>", "position startpos moves e2e4", "go wtime 100 btime 150 movestogo 10", "<await>"},
+		{"position fen " + lcFens["A"], "go searchmoves a1b1 depth 2", "<await>", "go depth 2 searchmoves a1a2 a1b2", "<await>"},
+		{"position startpos", "go infinite searchmoves g1f3 b1c3", "<idle>", "stop", "<await>"},
 	}
 	for _, sc := range scripts {
 		sc := sc
@@ -802,11 +805,43 @@ func c12RealSearches(run *vl.Run) {
 		ex := &sched.Explorer{Bound: 0, Body: body, MaxExec: 2000, Opt: sched.Options{StepCost: 20 * time.Microsecond, MaxSteps: 3000000, MaxTicks: 4000}}
 		ex.Check = func(x *sched.Exec) {
 			run.AddTransitions(int64(x.Steps))
+			rep := map[string]interface{}{"kind": "schedule", "program": strings.Join(sc, " | "), "choices": x.Choices, "events": x.EventsString()}
 			for _, vd := range c12Oracle(nil, x, sess) {
 				if strings.HasPrefix(vd.key, "race:") {
 					continue
 				}
-				run.Violate("real-search:"+vd.key, vd.what, map[string]interface{}{"kind": "schedule", "program": strings.Join(sc, " | "), "choices": x.Choices, "events": x.EventsString()})
+				run.Violate("real-search:"+vd.key, vd.what, rep)
+			}
+			// stop ends a running search promptly (virtual time, step-cost model): bestmove within 10 ms of the stop command;
+			// a searchmoves list restricts the best move
+			var stopAt time.Duration = -1
+			var lastGo string
+			for _, e := range x.Events {
+				switch {
+				case e.Name == "cmd" && e.Arg == "stop":
+					stopAt = e.T
+				case e.Name == "cmd" && strings.HasPrefix(e.Arg, "go"):
+					lastGo = e.Arg
+				case e.Name == "out" && strings.HasPrefix(e.Arg, "bestmove"):
+					if stopAt >= 0 && e.T-stopAt > 10*time.Millisecond {
+						run.Violate("real-search:stop-not-prompt", fmt.Sprintf("bestmove %v after the stop command (virtual time)", e.T-stopAt), rep)
+					}
+					stopAt = -1
+					if i := strings.Index(lastGo, "searchmoves"); i >= 0 {
+						allowed := map[string]bool{}
+						for _, t := range strings.Fields(lastGo[i:])[1:] {
+							if len(t) >= 4 && t[0] >= 'a' && t[0] <= 'h' && t[1] >= '1' && t[1] <= '8' {
+								allowed[t] = true
+							} else {
+								break
+							}
+						}
+						bm := strings.Fields(e.Arg)[1]
+						if len(allowed) > 0 && !allowed[bm] {
+							run.Violate("real-search:searchmoves-ignored-via-uci", "bestmove "+bm+" is not in the searchmoves list of: "+lastGo, rep)
+						}
+					}
+				}
 			}
 		}
 		ex.Explore()
